@@ -521,6 +521,26 @@ def big(tier, rng):
         pb["n_solutions"] = len(sols)
         made += 1
         yield pb
+    # numbered LONG gates (two or more cells): the number has to bind whichever cell of the gate the loop crosses; boards
+    # with at least three gates, every long gate numbered at random (consistent with some loop or not)
+    made, tries = 0, 0
+    while made < (30 if th else 10) and tries < 3000:
+        tries += 1
+        (h, w) = rng.choice(shapes)
+        pb = _planted_board(h, w, rng)
+        if pb is None or len(pb["gates"]) < 3 or not any(g[3] >= 2 for g in pb["gates"]):
+            continue
+        for g in pb["gates"]:
+            if g[3] >= 2:
+                g[4] = rng.randint(1, len(pb["gates"]))
+        try:
+            sols = _all_solutions(pb)
+        except OverflowError:
+            continue
+        pb["planted"] = sols[:40]
+        pb["n_solutions"] = len(sols)
+        made += 1
+        yield pb
     s = SAMPLE
     bl = _instantiate(s["h"], s["w"], s["extra_black"], s["gates"])
     pb = {"h": s["h"], "w": s["w"], "origin": s["origin"], "black": bl, "gates": s["gates"]}
